@@ -23,6 +23,12 @@ def one_call_case(case, ki=0):
     return c
 
 
+def is_modified(cout):
+    """Whether the result carries rewritten code (what every consumer looks at), independently of the
+    metrics object (whose correctness is the business of C12/C15 only)."""
+    return cout.get("outcome") == "ok" and bool((cout.get("result") or {}).get("content"))
+
+
 def impl_metrics(cout):
     if cout.get("outcome") != "ok":
         return None
